@@ -1,0 +1,21 @@
+//go:build verif
+
+package model
+
+// Abstract view of the tag-driven (reflective) accessors of CmdType. The functions below are
+// specification-only; their relation to the struct tags is the subject of C18.
+//   cmdHasData(c) : some tagged data field of c is non-nil
+//   cmdValue(c)   : that field's value (the first one), as an interface value
+//   cmdHasFct(c)  : its fct tag is non-empty
+//   cmdFct(c)     : the function named by that tag
+//@ spec cmdHasData(c CmdType) bool
+//@ spec cmdValue(c CmdType) any
+//@ spec cmdHasFct(c CmdType) bool
+//@ spec cmdFct(c CmdType) FunctionType
+
+//@ func (*CmdType).Data trusted
+//@   requires cmd != nil
+//@   ensures (result1 == nil) <==> cmdHasData(*cmd)
+//@   ensures result1 != nil ==> result0 == nil
+//@   ensures result1 == nil ==> result0 != nil && fresh(result0) && result0.Value == cmdValue(*cmd) && result0.Value != nil && ((result0.Function != nil) <==> cmdHasFct(*cmd)) && (result0.Function != nil ==> *result0.Function == cmdFct(*cmd))
+//@   modifies new(CmdData), new(FunctionType)
